@@ -96,14 +96,14 @@ Theorem C11_nav_children' :
 Proof. exact nav_children'. Qed.
 Print Assumptions C11_nav_children'.
 
-Theorem C11_children_deque :
+Theorem C11_children_deque' :
   forall d t id par s ops it,
-  Arena d t -> In (id, par, s) (table t) ->
+  Arena' d t -> In (id, par, s) (table t) ->
   Forall (fun o => o = DNext \/ o = DNextBack) ops ->
   children d id = Ok it ->
   run_children d ops it = Ok (deque_run ops (child_ids (id + 1) (tchildren s))).
-Proof. exact children_deque. Qed.
-Print Assumptions C11_children_deque.
+Proof. exact children_deque'. Qed.
+Print Assumptions C11_children_deque'.
 
 Theorem C11_slice_deque :
   forall ops it, it_lo it <= it_hi it ->
